@@ -67,6 +67,8 @@ pub const NAMES: &[&str] = &[
     "f", "g", "i", "x", "h", "k", "foo", "bar", "y", "e", "out", "t-a", "t-b", "t-c", "t-d", "t-e", "t-f", "t-g", "t-h", "t-i", "t-j",
     "imp-a", "imp-b", "imp-c", "imp-d", "imp-e", "imp-f", "imp-g", "imp-h", "foo:bar/baz@0.1.0", "foo:bar/baz@0.1.2", "inst",
     "foo:bar/types@1.0.0", "foo:bar/types@1.2.0", "h2", "t", "u",
+    // 37..43: one semver track of import names (explicit-import merge conflicts)
+    "x:y/z@0.2.0", "x:y/z@0.2.1", "x:y/z@0.2.2", "x:y/z@0.2.3", "x:y/z@0.2.4", "x:y/z@0.2.5", "x:y/z@0.2.6",
 ];
 
 struct PkgDesc { name: &'static str, version: Option<&'static str>, wat: &'static str }
@@ -109,6 +111,11 @@ const PKGS: &[PkgDesc] = &[
     PkgDesc { name: "test:plug-rest", version: None, wat: r#"(component
         (import "k" (func)) (import "zi" (instance (export "x" (func)) (export "y" (func))))
         (export "sd" (func 0)) (export "se" (func 0)) (export "sf" (func 0)) (export "si" (instance 0)) (export "sj" (instance 0)))"# },
+    // 13, 14: instantiations that implicitly import names of the x:y/z@0.2 track
+    PkgDesc { name: "test:z1", version: None, wat: r#"(component
+        (import "x:y/z@0.2.1" (instance (export "x" (func)))) (export "o1" (instance 0)))"# },
+    PkgDesc { name: "test:z3", version: None, wat: r#"(component
+        (import "x:y/z@0.2.3" (instance (export "x" (func)) (export "y" (func)))) (import "k" (func)) (export "o3" (instance 0)))"# },
 ];
 
 struct Local { defs: Vec<Type>, kinds: Vec<ItemKind> }
@@ -139,6 +146,9 @@ fn mk_graph() -> (CompositionGraph, Local) {
     let if0 = t.add_interface(Interface { id: None, uses: Default::default(), exports: e0.clone() });
     e0.insert("y".to_string(), ItemKind::Func(f0));
     let if1 = t.add_interface(Interface { id: None, uses: Default::default(), exports: e0.clone() });
+    let mut ebad = indexmap::IndexMap::new();
+    ebad.insert("x".to_string(), ItemKind::Func(f1));
+    let ifbad = t.add_interface(Interface { id: None, uses: Default::default(), exports: ebad });
     let if2 = t.add_interface(Interface { id: Some("foo:bar/baz@0.1.2".into()), uses: Default::default(), exports: e0 });
     // three interfaces on one semver track; the 1.0.0 one uses a type of the 1.1.0 one
     let tk = ItemKind::Type(Type::Value(ValueType::Defined(t0)));
@@ -157,11 +167,12 @@ fn mk_graph() -> (CompositionGraph, Local) {
     let defs = vec![ty(t0), ty(t1), ty(t2), ty(t3), ty(t4), ty(t5), ty(t6), ty(t7), ty(t8), ty(t9), ty(t10), Type::Func(f0)];
     let kinds = vec![ItemKind::Func(f0), ItemKind::Func(f1), ItemKind::Instance(if0), ItemKind::Instance(if1),
                      ItemKind::Type(ty(t0)), ItemKind::Type(ty(t1)), ItemKind::Instance(if2),
-                     ItemKind::Instance(ifa), ItemKind::Instance(ifc), ItemKind::Instance(ifb)];
+                     ItemKind::Instance(ifa), ItemKind::Instance(ifc), ItemKind::Instance(ifb),
+                     ItemKind::Instance(ifbad)];
     (g, Local { defs, kinds })
 }
 const NDEFS: usize = 12;
-const NKINDS: usize = 10;
+const NKINDS: usize = 11;
 
 fn mk_pkg(g: &mut CompositionGraph, i: usize) -> Package {
     let v = PKGS[i].version.map(|v| semver::Version::parse(v).unwrap());
@@ -303,7 +314,16 @@ fn enc_obs(g: &CompositionGraph, define: bool) -> (String, String) {
     match r {
         Ok(Ok(b)) => (format!("ok:{}:{}", sha(&b), b.len()), extract_order(&b)),
         Ok(Err(e)) => {
-            let mut msg = e.to_string();
+            // the fields that the Display text leaves out (node ids, names) are part of the observation
+            let mut msg = match &e {
+                wac_graph::EncodeError::ImportTypeMergeConflict { import, first, second, .. } =>
+                    format!("ImportTypeMergeConflict{{import={import} first={first} second={second}}} "),
+                wac_graph::EncodeError::ImplicitImportConflict { import, instantiation, package, name } =>
+                    format!("ImplicitImportConflict{{import={import} instantiation={instantiation} package={package} name={name}}} "),
+                wac_graph::EncodeError::GraphContainsCycle { node } => format!("GraphContainsCycle{{node={node}}} "),
+                _ => String::new(),
+            };
+            msg.push_str(&e.to_string());
             let mut src: Option<&dyn std::error::Error> = std::error::Error::source(&e);
             while let Some(s) = src { msg.push_str(" / "); msg.push_str(&s.to_string()); src = s.source(); }
             (format!("E:{}:{}", sha(msg.as_bytes()), clean(&msg)), String::new())
@@ -525,6 +545,35 @@ fn gen_plug(r: &mut Rng) -> Vec<Op> {
     ops
 }
 
+/// an explicit import that cannot be merged with the earlier imports of its semver track: the error names the
+/// `first` node among 2..6 candidates (explicit imports and instantiation-implied imports) and the `second`
+fn gen_merge_conflict(r: &mut Rng) -> Vec<Op> {
+    let mut ops = Vec::new();
+    let mut node = 0usize;
+    for k in 0..r.below(3) as usize { ops.push(Op::Imp(21 + k, r.below(2) as usize)); node += 1; }
+    // instantiation-implied candidates (names @0.2.1 / @0.2.3)
+    let with_inst = r.below(3);
+    let mut used: Vec<usize> = Vec::new();           // name indexes taken by implicit imports
+    if with_inst >= 1 { ops.push(Op::Reg(13)); if with_inst == 2 || r.chance(1, 2) { ops.push(Op::Reg(14)); } }
+    let nreg = ops.iter().filter(|o| matches!(o, Op::Reg(_))).count();
+    for s in 0..nreg { for _ in 0..(1 + r.below(2)) { ops.push(Op::Inst(s, 0)); node += 1; } }
+    if nreg >= 1 { used.push(38); } if nreg >= 2 { used.push(40); }
+    // explicit candidates: compatible kinds 2 ({x}) / 3 ({x, y}); the conflict (kind 10: x has another type, or 0: a
+    // function) at a random position
+    let mut names: Vec<usize> = (37..44).filter(|n| !used.contains(n)).collect();
+    for i in (1..names.len()).rev() { let j = r.below(i as u64 + 1) as usize; names.swap(i, j); }
+    let n_ok = (2 + r.below(5) as usize).min(names.len() - 1);
+    let at = r.below(n_ok as u64 + 1) as usize;
+    let at = if nreg == 0 && at < 2 { 2.min(n_ok) } else { at };      // at least two earlier candidates
+    for (i, nm) in names.iter().take(n_ok + 1).enumerate() {
+        let kind = if i == at { *r.pick(&[10usize, 10, 0]) } else { *r.pick(&[2usize, 2, 3]) };
+        ops.push(Op::Imp(*nm, kind)); node += 1;
+        if r.chance(1, 6) { ops.push(Op::Imp(24 + (i % 5), 0)); node += 1; }
+    }
+    if r.chance(1, 3) { ops.push(Op::Export(r.below(node.max(1) as u64) as usize, 6)); }
+    ops
+}
+
 fn random_op(run: &Run, r: &mut Rng) -> Op {
     let nodes = run.live_nodes();
     let pk: Vec<(usize, usize)> = run.pkgs.keys().filter(|k| !run.stale.contains(k)).cloned().collect();
@@ -668,6 +717,12 @@ fn main() {
         cases.push("H reg 9;reg 11;reg 12;plugl 0 2 1".into());
         cases.push("H reg 9;reg 10;reg 11;plugl 0 2 1".into());
         cases.push("H imp 21 0;reg 10;reg 12;reg 9;plugl 2 0 1;name 1 6".into());
+        // explicit-import merge conflict with several earlier candidates on the track: the error's first/second nodes
+        cases.push("H imp 37 2;imp 38 3;imp 39 2;imp 40 2;imp 41 2;imp 42 10".into());
+        cases.push("H reg 13;reg 14;inst 0 0;inst 1 0;inst 0 0;imp 37 2;imp 39 2;imp 41 10;imp 42 2".into());
+        cases.push("H imp 37 2;imp 38 2;imp 39 10;imp 40 2;imp 41 2".into());
+        cases.push("H imp 21 0;imp 43 2;imp 40 3;imp 38 2;imp 37 2;imp 41 0".into());
+        cases.push("H reg 14;inst 0 0;inst 0 0;imp 37 3;imp 38 2;imp 42 10".into());
         cases.push("H imp 21 7;imp 22 8".into());
         cases.push("H imp 21 7".into());
         cases.push("H imp 23 9;imp 22 8".into());
@@ -676,6 +731,7 @@ fn main() {
         for _ in 0..n_shape { cases.push(show(&gen_same_rank(&mut r))); }
         for _ in 0..n_shape { cases.push(show(&gen_overlapping(&mut r))); }
         for _ in 0..(n_shape / 2).max(12) { cases.push(show(&gen_plug(&mut r))); }
+        for _ in 0..(n_shape / 2).max(12) { cases.push(show(&gen_merge_conflict(&mut r))); }
         for _ in 0..n_rand { cases.push(show(&gen_random(&mut r, maxlen))); }
         cases.extend(inline_docs(&repo));
         collect_docs(&repo, &mut cases);
